@@ -131,6 +131,22 @@ impl desert::BinaryDeserializer for VSeqI {
     }
 }
 
+/// the writing counterpart: a count byte and the var-ints, through the context (whose output may be a chunk buffer)
+struct VSeqW<'a>(&'a [u32], bool);
+impl desert::BinarySerializer for VSeqW<'_> {
+    fn serialize<O: BinaryOutput>(&self, context: &mut desert::SerializationContext<O>) -> desert::Result<()> {
+        context.write_u8(self.0.len() as u8);
+        for x in self.0 {
+            if self.1 {
+                context.write_var_i32(*x as i32)
+            } else {
+                context.write_var_u32(*x)
+            }
+        }
+        Ok(())
+    }
+}
+
 /// The values laid out (by the reference formulas) as the three chunks of a version-2 record behind a prefix of
 /// `round % 5` bytes and before a tail; read back through AdtDeserializer, i.e. from regions of the input whose
 /// start is not the start of the buffer.
@@ -158,6 +174,25 @@ fn read_inside_chunks(vals: &[u32], signed: bool, round: usize) -> Result<(), St
     }
     for c in &chunks {
         input.extend_from_slice(c);
+    }
+    // the same record written through AdtSerializer: the var-ints go into the chunk buffers of the context
+    {
+        let mut sc = desert::SerializationContext::new(TAIL[..round % 5].to_vec());
+        let w = crate::run::guarded(|| -> desert::Result<()> {
+            let mut ser = desert::adt::AdtSerializer::new(&meta, &mut sc);
+            ser.write_field("a", &VSeqW(parts[0], signed))?;
+            ser.write_field("b", &VSeqW(parts[1], signed))?;
+            ser.write_field("c", &VSeqW(parts[2], signed))?;
+            ser.finish()
+        });
+        match w {
+            Ok(Ok(())) => {}
+            other => return Err(format!("writing var-ints as fields of an evolved record failed: {other:?}")),
+        }
+        let out = sc.into_output();
+        if out != input {
+            return Err(format!("var-ints written into the chunk buffers of an evolved record give {} — the reference layout is {}", vmodel::hex(&out), vmodel::hex(&input)));
+        }
     }
     input.extend_from_slice(&TAIL[..(round * 3) % 11]);
     let mut ctx = DeserializationContext::new(&input);
@@ -372,7 +407,7 @@ pub fn run(cx: &Cx) -> PropResult {
     let mut r = PropResult::new(
         acc,
         "exploration",
-        "values x: +-4096 around every width boundary (2^7, 2^14, 2^21, 2^28, 2^31, 0, 2^32-1) for u32 and for the zig-zag pre-images for i32, the lattice k*65537, and seeded random values of uniformly chosen bit length; thorough tier in the release profile enumerates all 2^32 u32 and all 2^32 i32 values (values of an enumeration are distinct by construction and are counted, not hashed). Oracle: bytes written to Vec<u8> and BytesMut equal the independently computed LEB128 / zig-zag reference, SizeCalculator.size() == that length == minimal length, continuation bit on all but the last byte, SliceInput / OwnedInput / DeserializationContext read the value back and leave the sentinel byte that follows unread. Every value is read with 1 and with 9 further bytes behind it (values within 2 of a width boundary: 0..=16 bytes, with and without continuation bits). Also streams of 1-40 values appended to one Vec<u8> and one BytesMut (fresh, or with 1-9 bytes of initial capacity so that it must grow mid-value) and read back in order through all three inputs from a buffer that continues for 0-16 bytes, and once more from inside the three chunks of an evolved record placed in the middle of a buffer (regions of the context that do not start at offset 0). Non-trivial = needs >= 2 bytes.",
+        "values x: +-4096 around every width boundary (2^7, 2^14, 2^21, 2^28, 2^31, 0, 2^32-1) for u32 and for the zig-zag pre-images for i32, the lattice k*65537, and seeded random values of uniformly chosen bit length; thorough tier in the release profile enumerates all 2^32 u32 and all 2^32 i32 values (values of an enumeration are distinct by construction and are counted, not hashed). Oracle: bytes written to Vec<u8> and BytesMut equal the independently computed LEB128 / zig-zag reference, SizeCalculator.size() == that length == minimal length, continuation bit on all but the last byte, SliceInput / OwnedInput / DeserializationContext read the value back and leave the sentinel byte that follows unread. Every value is read with 1 and with 9 further bytes behind it (values within 2 of a width boundary: 0..=16 bytes, with and without continuation bits). Also streams of 1-40 values appended to one Vec<u8> and one BytesMut (fresh, or with 1-9 bytes of initial capacity so that it must grow mid-value) and read back in order through all three inputs from a buffer that continues for 0-16 bytes, written as fields of an evolved record (into the context's chunk buffers) and compared with the reference layout, and read once more from inside the three chunks of that record placed in the middle of a buffer (regions of the context that do not start at offset 0). Non-trivial = needs >= 2 bytes.",
     );
     if exhaustive {
         r.exhaustive = Some(true);
